@@ -6,25 +6,33 @@ through the Node API (mc/build.py), compared with the snapshot it was built from
 
 Layers (each enumerated completely up to the tier bound):
 
-  struct  every tree of U(n) x every child order x internal nodes {unlabelled, labelled,
+  struct  every tree of U(n <= 4) x every child order x internal nodes {unlabelled, labelled,
           carrying taxa} x rooting {undefined, rooted, unrooted} x eight edge-length patterns
-          (absent, 0, integers, scientific-notation floats, with / without a root-edge length,
-          two mixed None patterns) x every applicable option set of every schema; the same for
-          every single and double unifurcation insertion (fewer patterns); n <= 3 additionally
-          under every namespace configuration (unused taxa, reversed / sorted member list,
-          removed lowest accession index).
+          (absent, 0, integers incl. a negative one, scientific-notation floats, each with and
+          without a root-edge length, two mixed None / 0.0 / value patterns) x every applicable
+          option set of every schema (STRUCT_OPTS); every single and double unifurcation
+          insertion (three length patterns, two label modes, UNIF_OPTS); n <= 3 additionally
+          under every namespace configuration of mc/build.py (unused taxa, reversed / sorted
+          member list, removed lowest accession index).  Thorough adds n = 5 with every child
+          order (four length patterns, MID_OPTS), single unifurcations at n = 5, and n = 6 in the
+          generated and the fully reversed child order (default options).
   list    every ordered tuple of length 0..3 over a pool of six trees on one namespace
           (different shapes, rootings, length patterns, one on a subset of the taxa, one single
-          node) x option sets x namespace configurations, through TreeList.as_string / TreeList.get.
-  label   one taxon label (at every leaf position) resp. one internal node label drawn from:
-          nine forms around every single character of printable ASCII + TAB + e-acute, sharp s,
-          a CJK letter; three forms around every ordered pair of the 35 special characters
-          (thorough: two forms around every ordered triple) - x every consistent
-          (unquoted_underscores/preserve_underscores, preserve_spaces, translate_tree_taxa,
-          read-into-the-same-namespace) option set.
+          node) x option sets x four namespace configurations, plus the empty list over the
+          empty namespace, through TreeList.as_string / TreeList.get.
+  label   one taxon label (forms 'c' and 'xcy' at every leaf position) resp. one internal node
+          label (on the root and an inner node) drawn from: nine forms around every single
+          character of printable ASCII + TAB + three non-ASCII letters; three forms (x c1 c2 y,
+          c1 c2, c1 x c2) around every ordered pair of the 35 special characters; thorough: two
+          forms around every ordered triple - x every consistent (unquoted_underscores /
+          preserve_underscores, preserve_spaces, translate_tree_taxa, read into the source
+          namespace) option set (LABEL_OPTS).
 
 Oracle: plain comparison of snapshots (mc/ref.py: taxon label, node label, edge length,
-children in order; rooting flag) and of the namespace's label list.
+children in order; rooting flag) and of the namespace's label list.  Signatures name the schema,
+the kind of disagreement (reader exception class, label / length / rooting / namespace change)
+and the trigger (the single character that fails on its own, the option groups the failure needs,
+'empty-list').
 """
 import itertools
 
@@ -89,6 +97,18 @@ def bounds(tier):
     if tier != "quick":
         b.update({"struct_max_leaves_all_orders": 5, "struct_base_and_reversed_leaves": [6],
                   "unifurcation_max_leaves": 5, "label_tuple_max": 3})
+    names = lambda table: dict((k, ["+".join(o) or "default" for o in v]) for k, v in table.items())
+    b["option_sets"] = {"struct_n<=4": names(STRUCT_OPTS), "struct_n=5": names(MID_OPTS), "struct_n=6": names(LITE_OPTS),
+                        "unifurcations": names(UNIF_OPTS), "namespace_configs": names(NSCFG_OPTS),
+                        "lists": names(LIST_OPTS), "labels": names(LABEL_OPTS)}
+    b["option_groups"] = {
+        "into_ns": "reader taxon_namespace=<source namespace>", "ps": "writer preserve_spaces=True",
+        "uu": "writer unquoted_underscores=True + reader preserve_underscores=True",
+        "translate": "writer translate_tree_taxa=True", "translate-dict": "writer translate_tree_taxa={taxon k: 'T<k>'}",
+        "weights": "store_tree_weights=True on both sides, weights 1, 0.5, 3/7",
+        "sr-force": "writer suppress_rooting=True + reader rooting='force-(un)rooted' as the tree is",
+        "sr-default": "writer suppress_rooting=True + reader rooting='default-(un)rooted' as the tree is",
+        "opp-default": "rooting token written + reader rooting='default-<the opposite>'"}
     return b
 
 
@@ -447,6 +467,8 @@ def signature(case, kind):
                     break
             if culprit is not None:
                 feat = "char:" + char_name(culprit)
+            elif not sp:
+                feat = "digits" if label.isdigit() else "alphanumeric"
             elif len(sp) == 1 and label == sp[0]:
                 feat = "whole-label:" + char_name(sp[0])
             elif all((ord(c) > 126 or not c.isalnum()) for c in label):
@@ -463,12 +485,14 @@ def signature(case, kind):
     return "%s|%s%s%s" % (schema, kind, tag, opt_tag)
 
 
-def check(case, ctx, sample=False):
+def check(case, ctx, key=None, nontrivial=True, sample=False):
     """evaluate one case, report violations; returns True when the case was applicable"""
     probs, info = evaluate(case, want_text=sample)
     if probs is None:
         ctx.count("inapplicable_option_sets")
         return False
+    if key is not None:
+        ctx.case(key, nontrivial=nontrivial)
     ctx.count("round_trips")
     ctx.count("round_trips_" + case["schema"])
     ctx.count("round_trips_layer_" + case.get("layer", "struct"))
@@ -578,9 +602,9 @@ def run_struct(chunk, ctx):
                 for schema in SCHEMAS:
                     for opts in optsets[schema]:
                         case = struct_case(schema, opts, d, rooted, lens, imode, widx=ci + di)
-                        ctx.case(("s", d, rooted, lens, imode, schema, opts), nontrivial=n >= 3)
-                        check(case, ctx, sample=(n >= 3 and di == 0 and si == chunk["lo"] and rooted is True and imode == "labels"
-                                                 and lens in ("sci", "mixed") and opts in ((), ("translate",))))
+                        smp = (n >= 3 and di == 0 and si == chunk["lo"] and rooted is True and imode == "labels"
+                               and lens in ("sci", "mixed") and opts in ((), ("translate",)))
+                        check(case, ctx, ("s", d, rooted, lens, imode, schema, opts), n >= 3, sample=smp)
             if chunk["which"] == "orders" and n <= b["ns_configs_up_to_leaves"]:
                 for cfg in b["ns_configs"]:
                     if cfg == "exact":
@@ -589,9 +613,8 @@ def run_struct(chunk, ctx):
                         for schema in SCHEMAS:
                             for opts in NSCFG_OPTS[schema]:
                                 case = struct_case(schema, opts, d, rooted, lens, imode, nscfg=cfg)
-                                ctx.case(("sn", d, rooted, lens, imode, schema, opts, cfg), nontrivial=n >= 3)
-                                ctx.count("namespace_config_cases")
-                                check(case, ctx)
+                                if check(case, ctx, ("sn", d, rooted, lens, imode, schema, opts, cfg), n >= 3):
+                                    ctx.count("namespace_config_cases")
 
 
 # ---------------------------------------------------------------------------
@@ -641,14 +664,12 @@ def run_list(chunk, ctx):
                     if cfg != "exact" and (len(idxs) > 2):
                         continue
                     case = list_case(schema, opts, idxs, cfg)
-                    ctx.case(("l", idxs, schema, opts, cfg), nontrivial=len(idxs) >= 1)
-                    check(case, ctx, sample=(idxs == (first, 1) and not opts and cfg == "exact"))
+                    check(case, ctx, ("l", idxs, schema, opts, cfg), len(idxs) >= 1, sample=(idxs == (first, 1) and not opts and cfg == "exact"))
                 if not idxs:
                     # the empty list over an empty namespace: TreeList()
                     case = list_case(schema, opts, idxs, "exact")
                     case["ns"]["labels"] = []
-                    ctx.case(("l0", schema, opts), nontrivial=True)
-                    check(case, ctx)
+                    check(case, ctx, ("l0", schema, opts), True)
 
 
 # ---------------------------------------------------------------------------
@@ -670,8 +691,7 @@ def run_labels(labels, ctx, positions_for=None):
                 for site in ("taxon", "internal"):
                     for pos in ((0, 1, 2) if (allpos and site == "taxon") else (0,)):
                         case = label_case(schema, opts, label, site, pos)
-                        ctx.case(("b", label, schema, opts, site, pos), nontrivial=nontriv)
-                        check(case, ctx, sample=(label in ("x'y", "x[_y") and site == "taxon" and pos == 0 and not opts))
+                        check(case, ctx, ("b", label, schema, opts, site, pos), nontriv, sample=(label in ("x'y", "x[_y") and site == "taxon" and pos == 0 and not opts))
 
 
 def run_label1(chunk, ctx):
